@@ -822,7 +822,7 @@ def ps_ctor_posts(cx, data_region=None, data_off=None, shares_region=None, axes_
     """what every PhaseSpace constructor establishes (restated for the delegating ones)"""
     nx, ny, nb = ps_globals(cx)
     k, n, x = cx.g('k'), cx.g('n'), cx.g('x')
-    out = [('shape', {'C09', 'C17'}, declare_ps(cx, 'this'))]
+    out = [('shape', {'C09', 'C17'}, declare_ps(cx, cx.this or 'this'))]
     if axes_obj is not None:
         out.append(('axes', {'C09', 'C17'}, And(same_ruler(cx, 'this._axis[0]', axes_obj + '[0]'), same_ruler(cx, 'this._axis[1]', axes_obj + '[1]'))))
     if shares_region is not None:
@@ -917,7 +917,7 @@ class PhaseSpaceCtor12(Contract):
 
     def requires(self, cx):
         nx, ny, nb = ps_globals(cx)
-        d = cx.arg('data')
+        d = cx.args.get('data', PtrV(None, I(0), None))      # defaulted (nullptr) when the caller gives fewer arguments
         return [('static', PS_static(cx)),
                 ('one_share_per_bunch', cx.len(cx.arg('filling').name) == nb),
                 ('data_extent', Or(z3.BoolVal(d.region is None), And(d.off >= 0, d.off + nx * ny * nb <= cx.st.len_of(d.region))) if isinstance(d, PtrV) and d.region is not None else z3.BoolVal(True))]
@@ -931,7 +931,7 @@ class PhaseSpaceCtor12(Contract):
 
     def ensures(self, cx):
         nx, ny, nb = ps_globals(cx)
-        d = cx.arg('data')
+        d = cx.args.get('data', PtrV(None, I(0), None))      # defaulted (nullptr) when the caller gives fewer arguments
         has = isinstance(d, PtrV) and d.region is not None
         out = ps_ctor_posts(cx, data_region=d.region if has else None, data_off=d.off if has else None, shares_region=cx.arg('filling').name)
         r0, r1 = ruler_fields(cx, 'this._axis[0]'), ruler_fields(cx, 'this._axis[1]')
@@ -1058,3 +1058,15 @@ class Gaus(PSMethod):
         l = LoopSpec(inv=self._inv)
         l.split = split_ghost('i', 'g')
         return {'i#0': l}
+
+
+class PhaseSpaceCtor12Use(PhaseSpaceCtor12):
+    """call-site view: charge and current members are the constructor arguments (member initialisers charge(beam_charge),
+    current(beam_current) of the main constructor, forwarded unchanged by the delegating ones); trailing parameters may be defaulted"""
+
+    def effect(self, cx):
+        t = cx.this or 'this'
+        for m, a in (('charge', 'beam_charge'), ('current', 'beam_current')):
+            v = cx.args.get(a)
+            if v is not None:
+                cx.st.scal[f'{t}.{m}'] = RealV(v.t if isinstance(v, RealV) else z3.ToReal(v.t), parse_type_str('double'))
